@@ -4,9 +4,11 @@
 (*                                                                          *)
 (* Writer model: the k-th Write call succeeds unless the plan says          *)
 (* otherwise: at call `at` (and, for a permanent fault, at every later      *)
-(* call) it returns an error, having accepted 0 bytes ("fail") or a proper  *)
-(* prefix ("short").  A short count without an error would break the        *)
-(* io.Writer contract and is not part of the family.                        *)
+(* call) it returns an error, having accepted 0 bytes ("fail"), a proper    *)
+(* prefix ("short") or everything ("full": the error comes with a full      *)
+(* count, as a writer may do whose failure is detected after the copy).  A  *)
+(* short count without an error would break the io.Writer contract and is   *)
+(* not part of the family.                                                  *)
 (*                                                                          *)
 (* LIB model (its control structure): three directly checked header writes, *)
 (* the weight section through a buffering tab writer whose Flush performs   *)
@@ -20,7 +22,7 @@
 EXTENDS Integers, Sequences, FiniteSets, TLC
 
 CONSTANTS MaxBody, CheckFlush
-Kinds == {"fail", "short"}
+Kinds == {"fail", "short", "full"}
 Plans == { [at |-> k, kind |-> kd, perm |-> p] : k \in 0..(MaxBody + 5), kd \in Kinds, p \in BOOLEAN }   \* at = 0: no fault
 
 VARIABLES pc, wcalls, failed, result, plan, body
@@ -31,7 +33,8 @@ Faulty(pl, c) == pl.at > 0 /\ (c = pl.at \/ (pl.perm /\ c > pl.at))
 (* outcome record of call number c writing len bytes: [n, err] *)
 Outcome(pl, c, len) == IF ~Faulty(pl, c) THEN [n |-> len, err |-> FALSE]
                        ELSE IF pl.kind = "fail" THEN [n |-> 0, err |-> TRUE]
-                       ELSE [n |-> len \div 2, err |-> TRUE]
+                       ELSE IF pl.kind = "short" THEN [n |-> len \div 2, err |-> TRUE]
+                       ELSE [n |-> len, err |-> TRUE]
 
 Init == /\ pc = "h1" /\ wcalls = 0 /\ failed = FALSE /\ result = "none"
         /\ plan \in Plans /\ body \in 0..MaxBody
